@@ -59,10 +59,12 @@ func ptxSet(rs []rshape) []ptx {
 	return out
 }
 
-func caseOf(n uint64, label string, shapes []ptx) *blockCase {
+// caseOf builds the reference case; slot = position of the case inside its chunk (salts keep tx hashes of the
+// cases that share a write batch distinct).
+func caseOf(n uint64, slot int, label string, shapes []ptx) *blockCase {
 	c := &blockCase{Label: label, Txs: []core.Transaction{}, Rcs: []*core.TransactionReceipt{}}
 	for i, p := range shapes {
-		tx := baseTx(p.Kind, i)
+		tx := baseTx(p.Kind, slot*3+i)
 		c.Txs = append(c.Txs, tx)
 		c.Rcs = append(c.Rcs, mkReceipt(tx, p.R, uint64(i)))
 		c.Kinds = append(c.Kinds, p.Kind)
@@ -72,17 +74,23 @@ func caseOf(n uint64, label string, shapes []ptx) *blockCase {
 }
 
 type gen struct {
-	name string
-	n    int
-	deep bool // also run the raw-bytes decoder agreement
-	at   func(i int, n uint64) *blockCase
+	name  string
+	n     int
+	deep  bool // also run the raw-bytes decoder agreement
+	chunk int  // cases per write batch (1 for families whose cases share transaction hashes)
+	at    func(i int, n uint64, slot int) *blockCase
 }
 
 func (h *harness) runGen(g gen, pool chan *env) {
 	var done atomic.Int64
 	cut := atomic.Bool{}
-	ev.Par(g.n, workers(), func(i int) {
-		if i%64 == 0 && h.r.OutOfTime() {
+	k := g.chunk
+	if k < 1 {
+		k = 1
+	}
+	nChunks := (g.n + k - 1) / k
+	ev.Par(nChunks, workers(), func(ci int) {
+		if ci%8 == 0 && h.r.OutOfTime() {
 			cut.Store(true)
 		}
 		if cut.Load() {
@@ -90,15 +98,20 @@ func (h *harness) runGen(g gen, pool chan *env) {
 		}
 		e := <-pool
 		defer func() { pool <- e }()
-		c := g.at(i, e.number())
-		if c == nil {
-			return
+		var cs []*blockCase
+		for slot := 0; slot < k && ci*k+slot < g.n; slot++ {
+			i := ci*k + slot
+			c := g.at(i, e.number(), slot)
+			if c == nil {
+				continue
+			}
+			if i == 0 || i == g.n-1 {
+				h.r.Sample(map[string]any{"phase": "record", "family": g.name, "index": i, "case": c.Label})
+			}
+			cs = append(cs, c)
 		}
-		if i == 0 || i == g.n-1 {
-			h.r.Sample(map[string]any{"phase": "record", "family": g.name, "index": i, "case": c.Label})
-		}
-		h.runCase(e, c, g.deep)
-		done.Add(1)
+		h.runChunk(e, cs, g.deep)
+		done.Add(int64(len(cs)))
 	})
 	h.r.Add("cases_"+g.name, done.Load())
 	if cut.Load() {
@@ -106,29 +119,38 @@ func (h *harness) runGen(g gen, pool chan *env) {
 	}
 }
 
-func (h *harness) recordPhase() {
+type recordRun struct {
+	h    *harness
+	pool chan *env
+	w    int
+}
+
+func (h *harness) openRecord() *recordRun {
 	w := workers()
 	pool := make(chan *env, w)
 	for i := 0; i < w; i++ {
 		pool <- newEnv()
 	}
-	defer func() {
-		for i := 0; i < w; i++ {
-			(<-pool).close()
-		}
-	}()
+	return &recordRun{h, pool, w}
+}
 
+func (rr *recordRun) close() {
+	for i := 0; i < rr.w; i++ {
+		(<-rr.pool).close()
+	}
+}
+
+// recordSmall: every family except the two big products.
+func (rr *recordRun) recordSmall() {
+	h, pool := rr.h, rr.pool
 	all := allRShapes()
-	pw := pairwiseRShapes()
 	full1 := ptxSet(all) // 12 x 108
-	P := ptxSet(ev.Pick(h.r, pw, all))
-	N := len(P)
 	h.r.Set("per_tx_shapes_size1", int64(len(full1)))
-	h.r.Set("per_tx_shapes_size2_3", int64(N))
+	one := []ptx{{"deployacc3", rshape{2, 2, 1, 2}}}
 
 	// (a) empty blocks: nil lists and empty lists
-	h.runGen(gen{"size0", 2, true, func(i int, n uint64) *blockCase {
-		c := caseOf(n, "empty block, empty lists", nil)
+	h.runGen(gen{"size0", 2, true, 1, func(i int, n uint64, slot int) *blockCase {
+		c := caseOf(n, slot, "empty block, empty lists", nil)
 		if i == 1 {
 			c.Label, c.Txs, c.Rcs = "empty block, nil lists", nil, nil
 		}
@@ -136,9 +158,9 @@ func (h *harness) recordPhase() {
 		return c
 	}}, pool)
 	// (b) size 1 in full
-	h.runGen(gen{"size1", len(full1), true, func(i int, n uint64) *blockCase {
+	h.runGen(gen{"size1", len(full1), true, chunkSize, func(i int, n uint64, slot int) *blockCase {
 		p := full1[i]
-		return caseOf(n, fmt.Sprintf("[%s/%s]", p.Kind, p.R), []ptx{p})
+		return caseOf(n, slot, fmt.Sprintf("[%s/%s]", p.Kind, p.R), []ptx{p})
 	}}, pool)
 	// (c) size 1: every single-location perturbation of every transaction kind x 3 receipt shapes
 	type tv struct {
@@ -154,14 +176,14 @@ func (h *harness) recordPhase() {
 			}
 		}
 	}
-	h.runGen(gen{"size1_tx_field_variants", len(tvs), true, func(i int, n uint64) *blockCase {
+	h.runGen(gen{"size1_tx_field_variants", len(tvs), true, 1, func(i int, n uint64, _ int) *blockCase {
 		t := tvs[i]
 		c := &blockCase{Label: fmt.Sprintf("[%s %s /%s]", t.kind, t.v.Label, t.r), Txs: []core.Transaction{t.v.V}, Kinds: []string{t.kind}}
 		c.Rcs = []*core.TransactionReceipt{mkReceipt(t.v.V, t.r, 0)}
 		c.Hdr = fullHeader(n, c.Rcs)
 		return c
 	}}, pool)
-	// (d) size 1: every single-location perturbation of a fully populated receipt (plain + L1 handler)
+	// (d) size 1: every single-location perturbation of a fully populated receipt (plain, L1 handler, deploy account)
 	type rv struct {
 		kind string
 		v    variant[*core.TransactionReceipt]
@@ -172,42 +194,29 @@ func (h *harness) recordPhase() {
 			rvs = append(rvs, rv{k, v})
 		}
 	}
-	h.runGen(gen{"size1_receipt_field_variants", len(rvs), true, func(i int, n uint64) *blockCase {
+	h.runGen(gen{"size1_receipt_field_variants", len(rvs), true, 1, func(i int, n uint64, _ int) *blockCase {
 		t := rvs[i]
 		c := &blockCase{Label: fmt.Sprintf("[%s receipt %s]", t.kind, t.v.Label), Txs: []core.Transaction{baseTx(t.kind, 0)}, Kinds: []string{t.kind},
 			Rcs: []*core.TransactionReceipt{t.v.V}}
 		c.Hdr = fullHeader(n, c.Rcs)
 		return c
 	}}, pool)
-	// (e) size 2 in full over P x P
-	h.runGen(gen{"size2", N * N, true, func(i int, n uint64) *blockCase {
-		a, b := P[i/N], P[i%N]
-		return caseOf(n, fmt.Sprintf("[%s/%s, %s/%s]", a.Kind, a.R, b.Kind, b.R), []ptx{a, b})
-	}}, pool)
-	// (f) size 3 pairwise: rows (a, b, a+b mod N) of the cyclic Latin square form an orthogonal array of strength 2 —
-	// every pair of positions sees every pair of per-tx shapes exactly once.
-	h.runGen(gen{"size3_pairwise", N * N, true, func(i int, n uint64) *blockCase {
-		a, b := i/N, i%N
-		s := []ptx{P[a], P[b], P[(a+b)%N]}
-		return caseOf(n, fmt.Sprintf("[%s/%s, %s/%s, %s/%s]", s[0].Kind, s[0].R, s[1].Kind, s[1].R, s[2].Kind, s[2].R), s)
-	}}, pool)
 	// (g) headers: the full product of optional fields (empty block), then every single-location perturbation
-	h.runGen(gen{"header_shapes", nHeaderShapes(), false, func(i int, n uint64) *blockCase {
+	h.runGen(gen{"header_shapes", nHeaderShapes(), false, chunkSize, func(i int, n uint64, _ int) *blockCase {
 		s := headerShape(i)
 		return &blockCase{Label: fmt.Sprintf("header shape %v", s), Hdr: mkHeader(n, s), Txs: []core.Transaction{}, Rcs: []*core.TransactionReceipt{}}
 	}}, pool)
-	one := []ptx{{"deployacc3", rshape{2, 2, 1, 2}}}
-	hvs := perturb(fullHeader(7, caseOf(7, "", one).Rcs), map[string]bool{"Hash": true, "Number": true})
-	h.runGen(gen{"header_field_variants", len(hvs), false, func(i int, n uint64) *blockCase {
-		c := caseOf(n, "header "+hvs[i].Label, one)
+	hvs := perturb(fullHeader(7, caseOf(7, 0, "", one).Rcs), map[string]bool{"Hash": true, "Number": true})
+	h.runGen(gen{"header_field_variants", len(hvs), false, chunkSize, func(i int, n uint64, slot int) *blockCase {
+		c := caseOf(n, slot, "header "+hvs[i].Label, one)
 		hd := deepCopy(hvs[i].V)
 		hd.Number, hd.Hash = n, blockHashFor(n)
 		c.Hdr = hd
 		return c
 	}}, pool)
 	// (h) state updates: 3^7 section patterns, then perturbations of the fully populated one and of the commitments
-	h.runGen(gen{"state_update_shapes", 2187, false, func(i int, n uint64) *blockCase {
-		c := caseOf(n, fmt.Sprintf("state update sections %v", suShape(i)), one)
+	h.runGen(gen{"state_update_shapes", 2187, false, chunkSize, func(i int, n uint64, slot int) *blockCase {
+		c := caseOf(n, slot, fmt.Sprintf("state update sections %v", suShape(i)), one)
 		c.SU, c.CM = mkStateUpdateRecord(n, suShape(i)), mkCommitments(n)
 		return c
 	}}, pool)
@@ -220,16 +229,36 @@ func (h *harness) recordPhase() {
 		s.StateDiff.DeclaredV0Classes = append(s.StateDiff.DeclaredV0Classes, nil)
 		return s
 	}()})
-	h.runGen(gen{"state_update_field_variants", len(suvs), false, func(i int, n uint64) *blockCase {
-		c := caseOf(n, "state update "+suvs[i].Label, one)
+	h.runGen(gen{"state_update_field_variants", len(suvs), false, chunkSize, func(i int, n uint64, slot int) *blockCase {
+		c := caseOf(n, slot, "state update "+suvs[i].Label, one)
 		c.SU = deepCopy(suvs[i].V)
 		return c
 	}}, pool)
 	cmvs := perturb(mkCommitments(7), nil)
-	h.runGen(gen{"commitment_field_variants", len(cmvs), false, func(i int, n uint64) *blockCase {
-		c := caseOf(n, "commitments "+cmvs[i].Label, one)
+	h.runGen(gen{"commitment_field_variants", len(cmvs), false, chunkSize, func(i int, n uint64, slot int) *blockCase {
+		c := caseOf(n, slot, "commitments "+cmvs[i].Label, one)
 		c.CM = deepCopy(cmvs[i].V)
 		return c
+	}}, pool)
+}
+
+// recordBig: blocks of size 2 (full product) and 3 (pairwise) over the per-tx shape set P.
+func (rr *recordRun) recordBig() {
+	h, pool := rr.h, rr.pool
+	P := ptxSet(ev.Pick(h.r, pairwiseRShapes(), allRShapes()))
+	N := len(P)
+	h.r.Set("per_tx_shapes_size2_3", int64(N))
+	// (e) size 2 in full over P x P
+	h.runGen(gen{"size2", N * N, true, chunkSize, func(i int, n uint64, slot int) *blockCase {
+		a, b := P[i/N], P[i%N]
+		return caseOf(n, slot, fmt.Sprintf("[%s/%s, %s/%s]", a.Kind, a.R, b.Kind, b.R), []ptx{a, b})
+	}}, pool)
+	// (f) size 3 pairwise: rows (a, b, a+b mod N) of the cyclic Latin square form an orthogonal array of strength 2 —
+	// every pair of positions sees every pair of per-tx shapes exactly once.
+	h.runGen(gen{"size3_pairwise", N * N, true, chunkSize, func(i int, n uint64, slot int) *blockCase {
+		a, b := i/N, i%N
+		s := []ptx{P[a], P[b], P[(a+b)%N]}
+		return caseOf(n, slot, fmt.Sprintf("[%s/%s, %s/%s, %s/%s]", s[0].Kind, s[0].R, s[1].Kind, s[1].R, s[2].Kind, s[2].R), s)
 	}}, pool)
 }
 
@@ -292,7 +321,7 @@ func (h *harness) selfTest() {
 
 func TestCheck(t *testing.T) {
 	r := ev.Start("C07", "exploration")
-	r.SetBudget(ev.Pick(r, 150, 1500))
+	r.SetBudget(ev.Pick(r, 165, 1500))
 	h := &harness{r: r}
 	r.Assume = append(r.Assume,
 		"pebblev2 runs on vfs.NewMem(); the on-disk format / file system layer is trusted",
@@ -307,7 +336,8 @@ func TestCheck(t *testing.T) {
 	}
 	phase("selftest", h.selfTest)
 	phase("codec", h.codecPhase)
-	phase("record", h.recordPhase)
+	rr := h.openRecord()
+	phase("record-small", rr.recordSmall)
 	phase("misc", h.miscPhase)
 	versions := []string{"0.13.2", "0.13.4", "0.14.0", "0.14.1"}
 	phase("reader", func() { h.storePhase(versions, ev.Pick(r, 1, 12)) })
@@ -316,6 +346,8 @@ func TestCheck(t *testing.T) {
 		pats = append(pats, p)
 	}
 	phase("su-pattern", func() { h.suPatternPhase(pats) })
+	phase("record-big", rr.recordBig) // last: the only part the internal deadline may cut
+	rr.close()
 
 	r.Set("rule", "cases = block/record shapes enumerated by index over stated products (see cases_* counters); an evaluation writes one case through "+
 		"the real writers and reads it through every accessor on each backend; non-trivial = distinct (family, block size) outcomes, all of which must be 'ok'")
